@@ -7,8 +7,8 @@ package main
 
 import (
 	"fmt"
-	"math"
 	"go/types"
+	"math"
 	"strings"
 
 	"golang.org/x/tools/go/ssa"
@@ -40,8 +40,8 @@ type Ptr struct {
 	Cell *Cell
 	Ref  string
 	Path []int
-	Arr  string // element pointer: backing array id
-	Idx  string // element pointer: absolute index
+	Arr  string     // element pointer: backing array id
+	Idx  string     // element pointer: absolute index
 	Elem types.Type // type of the object Ref points to (for Ref) / element type (for Arr)
 }
 
